@@ -270,7 +270,7 @@ func c06Families(tier string) []explore.Family {
 		N = 6
 	}
 	K := len(c06Alpha)
-	return []explore.Family{c06SemFamily(tier), c06DeepFamily(), {Name: fmt.Sprintf("token-sequences<=%d", N), Count: seqCount(K, N), Run: func(i int64, r *explore.Rec) {
+	return []explore.Family{c06SemFamily(tier), c06DeepFamily(), c06ClauseScaleFamily(), {Name: fmt.Sprintf("token-sequences<=%d", N), Count: seqCount(K, N), Run: func(i int64, r *explore.Rec) {
 		seq := seqAt(K, i)
 		var sb strings.Builder
 		for k, si := range seq {
@@ -553,6 +553,108 @@ func c06DeepFamily() explore.Family {
 	}}
 }
 
+// ---- fourth family: clauses at scale. Nesting depth 1..40 with a clause on EVERY level, and blocks that
+// hold 1..40 closed sibling blocks before their clause; conditions true, false and alternating, so that the
+// clause bodies are the taken paths. Tree shape and rendered markers are compared as in the small family.
+func c06ClauseScaleFamily() explore.Family {
+	sym := func(src string) c06Sym {
+		for _, y := range c06Sem {
+			if y.src == src {
+				return y
+			}
+		}
+		panic("harness: no symbol " + src)
+	}
+	text := c06Sem[0]
+	type shape struct {
+		name              string
+		openT, openF      c06Sym // opener whose main body is taken / not taken
+		clauses           []c06Sym
+		end               c06Sym
+		bodyBeforeClauses bool
+	}
+	shapes := []shape{
+		{"if-else", sym("{% if true %}"), sym("{% if false %}"), []c06Sym{sym("{% else %}")}, sym("{% endif %}"), true},
+		{"if-elsif-else", sym("{% if true %}"), sym("{% if false %}"), []c06Sym{sym("{% elsif false %}"), sym("{% elsif true %}"), sym("{% else %}")}, sym("{% endif %}"), true},
+		{"unless-else", sym("{% unless true %}"), sym("{% unless true %}"), []c06Sym{sym("{% else %}")}, sym("{% endunless %}"), true},
+		{"case-when-else", sym("{% case 1 %}"), sym("{% case 1 %}"), []c06Sym{sym("{% when 2 %}"), sym("{% when 1 %}"), sym("{% else %}")}, sym("{% endcase %}"), false},
+		{"for-else", sym("{% for i in (1..1) %}"), sym("{% for i in (1..0) %}"), []c06Sym{sym("{% else %}")}, sym("{% endfor %}"), true},
+	}
+	const maxN = 40
+	type job struct{ shape, n, cond, layout int } // cond: 0 all taken, 1 none taken, 2 alternating; layout: 0 deep, 1 wide-inside, 2 wide-before
+	var jobs []job
+	for sh := range shapes {
+		for n := 1; n <= maxN; n++ {
+			for cond := 0; cond < 3; cond++ {
+				for layout := 0; layout < 3; layout++ {
+					jobs = append(jobs, job{sh, n, cond, layout})
+				}
+			}
+		}
+	}
+	return explore.Family{Name: "clauses-at-depth-and-width-1..40", Count: int64(len(jobs)), Run: func(i int64, r *explore.Rec) {
+		jb := jobs[i]
+		sh := shapes[jb.shape]
+		opener := func(level int) c06Sym {
+			if jb.cond == 0 || (jb.cond == 2 && level%2 == 0) {
+				return sh.openT
+			}
+			return sh.openF
+		}
+		// block(level, inner): opener, [text, inner, text], then every clause with text (the inner part goes
+		// into the main body, or into the first clause when the shape has no body before its clauses)
+		var block func(level int, inner []c06Sym, innerInClause int) []c06Sym
+		block = func(level int, inner []c06Sym, innerInClause int) []c06Sym {
+			seq := []c06Sym{opener(level)}
+			if sh.bodyBeforeClauses {
+				seq = append(seq, text)
+				if innerInClause < 0 {
+					seq = append(seq, inner...)
+					seq = append(seq, text)
+				}
+			}
+			for k, c := range sh.clauses {
+				seq = append(seq, c, text)
+				if k == innerInClause || (!sh.bodyBeforeClauses && innerInClause < 0 && k == 0) {
+					seq = append(seq, inner...)
+					seq = append(seq, text)
+				}
+			}
+			return append(seq, sh.end)
+		}
+		var seq []c06Sym
+		switch jb.layout {
+		case 0: // deep: n levels, the inner block sits alternately in the main body and in the last clause
+			var inner []c06Sym
+			for l := jb.n - 1; l >= 0; l-- {
+				where := -1
+				if l%2 == 1 {
+					where = len(sh.clauses) - 1
+				}
+				inner = block(l, inner, where)
+			}
+			seq = inner
+		case 1: // wide inside: n closed sibling blocks in the main body, then the clauses
+			var sib []c06Sym
+			for k := 0; k < jb.n; k++ {
+				sib = append(sib, block(k+1, nil, -1)...)
+			}
+			seq = block(0, sib, -1)
+		default: // wide before: n closed siblings at top level, then a block with clauses that holds one more
+			for k := 0; k < jb.n; k++ {
+				seq = append(seq, block(k+1, nil, -1)...)
+			}
+			seq = append(seq, block(0, block(1, nil, -1), len(sh.clauses)-1)...)
+		}
+		v := c06ModelSyms(seq)
+		if !v.accept {
+			panic(fmt.Sprintf("harness: clause-scale sequence not accepted by the model: shape %s n %d layout %d", sh.name, jb.n, jb.layout))
+		}
+		c06CheckAccepted(r, seq, v)
+		r.Class(fmt.Sprintf("clause-scale/%s/layout%d", sh.name, jb.layout))
+	}}
+}
+
 func indexOf(xs []string, x string) int {
 	for i, y := range xs {
 		if x == y {
@@ -584,7 +686,7 @@ func init() {
 		ID:    "C06",
 		Level: "model_checking",
 		Rule: "all token sequences of length <=5 (quick) / <=6 (thorough) over the 22-symbol alphabet {text marker, object, plain tag, 8 block openers, else/elsif/when, 8 end tags}, every tag with valid arguments so only structure decides; " +
-			"model = pushdown acceptor with comment/raw modes and the clause table of the Liquid documentation; every sequence is parsed by the real ParseTemplate (no state merging); accepted templates are compared by tree shape (GetRoot) and by rendered markers; second family: every accepted sequence of <=6 (quick) / <=8 (thorough) symbols over an 18-symbol semantic alphabet in which conditions may be false (if false, unless true, empty for, when 2, elsif false), enumerated by a depth-first walk over model-viable prefixes, so that else/elsif/when bodies are the taken paths; third family: nesting depth 1..40 of each block kind and of the alternating pattern, with every single-position edit (end tag dropped, adjacent end tags swapped, end tag of another kind, stray elsif); " +
+			"model = pushdown acceptor with comment/raw modes and the clause table of the Liquid documentation; every sequence is parsed by the real ParseTemplate (no state merging); accepted templates are compared by tree shape (GetRoot) and by rendered markers; second family: every accepted sequence of <=6 (quick) / <=8 (thorough) symbols over an 18-symbol semantic alphabet in which conditions may be false (if false, unless true, empty for, when 2, elsif false), enumerated by a depth-first walk over model-viable prefixes, so that else/elsif/when bodies are the taken paths; third family: nesting depth 1..40 of each block kind and of the alternating pattern, with every single-position edit (end tag dropped, adjacent end tags swapped, end tag of another kind, stray elsif); fourth family: clauses at scale - 5 block shapes with all their clauses (if/elsif/else, unless/else, case/when/else, for/else) nested 1..40 deep with clauses on every level, and holding or following 1..40 closed sibling blocks, conditions all taken / none taken / alternating, compared by tree shape and rendered markers; " +
 			"state = PDA configuration (open-block stack, mode) after the sequence; transition/trace = one sequence",
 		Assumptions: []string{
 			"rendering is not compared when a clause follows an else or content stands between case and its first when (order semantics not stated); acceptance and tree shape still are",
